@@ -22,6 +22,11 @@ try:
         r = subprocess.run(["/verif/vcheck", pr, "--root", tmp], capture_output=True, text=True, env={**os.environ, "VERIF_NO_EVIDENCE": "1"})
         lines = [l for l in r.stdout.splitlines() if l.startswith(("VIOLATION", "ANALYSIS-ERROR", "[FAIL]"))]
         print(f"== {pr}: exit {r.returncode}")
+        if os.environ.get("MUT_RECORD"):
+            import json
+            rules = sorted({l.split()[2] for l in r.stdout.splitlines() if l.startswith("[FAIL]") and len(l.split()) > 2})
+            with open(os.environ["MUT_RECORD"], "a") as fh:
+                fh.write(json.dumps({"file": rel, "old": old, "new": new, "index": idx, "prop": pr, "exit": r.returncode, "rules": rules}) + "\n")
         for l in lines[:6]: print("   ", l[:400])
         if r.returncode == 2: print(r.stdout[-1500:], r.stderr[-1500:])
 finally:
